@@ -50,3 +50,6 @@ pub use prelude::*;
 
 #[cfg(any(test, feature = "test_utils"))]
 pub mod test_utils;
+
+#[cfg(feature = "verif")]
+pub mod verif;
